@@ -122,3 +122,24 @@ fn c07_verify_with_non_object_cnf_does_not_panic() {
     kani::cover!(true, "end");
     std::mem::forget(r); std::mem::forget(v);
 }
+
+/// engine state incomplete (no token text / no parsed payload): error, no panic
+#[kani::proof]
+#[kani::unwind(4)]
+#[kani::stub(alloc::fmt::format, fmt_stub)]
+fn c07_verify_without_parsed_state_is_an_error() {
+    let which: bool = kani::any();
+    let mut payload = JMap::new();
+    put(&mut payload, "iss", jstr("i"));
+    let mut v = mk_verifier(payload);
+    if which { v.sd_jwt_engine.unverified_sd_jwt = None; } else { v.sd_jwt_engine.unverified_input_sd_jwt_payload = None; }
+    jm::register("h.p.s", Header::new(Algorithm::ES256), signed_claims(), 7);
+    jm::set_now(1000);
+    jm::expect(0, true);
+    let r = v.verify_sd_jwt(Some("ES256".to_string()));
+    assert!(r.is_err(), "C07.v7 verification without a parsed token must be an error");
+    kani::cover!(which, "no token text");
+    kani::cover!(!which, "no parsed payload");
+    kani::cover!(true, "end");
+    std::mem::forget(r); std::mem::forget(v);
+}
